@@ -857,6 +857,83 @@ def _unalias_lookups(tree):
     return count
 
 
+def _generator_loops(tree):
+    """gen = (ELT for V in SRC if C) ... for T in gen: BODY   ->   for V in SRC: if C: T = ELT; BODY
+    for a generator expression with one `for` that is consumed by exactly one for loop (directly or through a local bound
+    once): the lazily filtered loop is the plain loop with the filter as a guard."""
+    count = 0
+    for fn in ast.walk(tree):
+        if not isinstance(fn, ast.FunctionDef):
+            continue
+        own = list(_walk_own(fn))
+        stores, loads = {}, {}
+        for n in own:
+            if isinstance(n, ast.Name):
+                (stores if isinstance(n.ctx, (ast.Store, ast.Del)) else loads).setdefault(n.id, []).append(n)
+        gens = {}
+        for n in own:
+            if isinstance(n, ast.Assign) and len(n.targets) == 1 and isinstance(n.targets[0], ast.Name) and isinstance(n.value, ast.GeneratorExp) and \
+                    len(n.value.generators) == 1 and not n.value.generators[0].is_async:
+                name = n.targets[0].id
+                if len(stores.get(name, [])) == 1 and len(loads.get(name, [])) == 1:
+                    gens[name] = n
+
+        def rewrite(stmts):
+            nonlocal count
+            out = []
+            for st in stmts:
+                for fld in ("body", "orelse", "finalbody"):
+                    b = getattr(st, fld, None)
+                    if isinstance(b, list) and b and isinstance(b[0], ast.stmt):
+                        setattr(st, fld, rewrite(b))
+                if isinstance(st, ast.Try):
+                    for h in st.handlers:
+                        h.body = rewrite(h.body)
+                if isinstance(st, ast.Assign) and any(st is g for g in gens.values()) and getattr(st, "_consumed", False):
+                    continue
+                if isinstance(st, ast.For) and not st.orelse:
+                    ge = None
+                    if isinstance(st.iter, ast.GeneratorExp) and len(st.iter.generators) == 1 and not st.iter.generators[0].is_async:
+                        ge = st.iter
+                    elif isinstance(st.iter, ast.Name) and st.iter.id in gens and gens[st.iter.id].lineno < st.lineno:
+                        ge = gens[st.iter.id].value
+                        gens[st.iter.id]._consumed = True
+                    if ge is not None:
+                        g = ge.generators[0]
+                        bound = {x.id for x in ast.walk(g.target) if isinstance(x, ast.Name)}
+                        used_in_body = {x.id for b_ in st.body for x in ast.walk(b_) if isinstance(x, ast.Name)}
+                        targets = {x.id for x in ast.walk(st.target) if isinstance(x, ast.Name)}
+                        # the generator's own variables must not collide with names of the loop body (they become locals)
+                        if not ((bound - targets) & used_in_body):
+                            body = list(st.body)
+                            if not (isinstance(ge.elt, ast.Name) and isinstance(st.target, ast.Name) and ge.elt.id == st.target.id):
+                                body = [ast.copy_location(ast.Assign(targets=[st.target], value=ge.elt), st)] + body
+                            for cond in reversed(g.ifs):
+                                body = [ast.copy_location(ast.If(test=cond, body=body, orelse=[]), st)]
+                            st = ast.copy_location(ast.For(target=g.target, iter=g.iter, body=body, orelse=[]), st)
+                            ast.fix_missing_locations(st)
+                            count += 1
+                out.append(st)
+            return out
+        fn.body = rewrite(fn.body)
+        # drop the consumed generator definitions
+        def drop(stmts):
+            res = []
+            for st in stmts:
+                for fld in ("body", "orelse", "finalbody"):
+                    b = getattr(st, fld, None)
+                    if isinstance(b, list) and b and isinstance(b[0], ast.stmt):
+                        setattr(st, fld, drop(b) or [ast.Pass()])
+                if isinstance(st, ast.Assign) and getattr(st, "_consumed", False):
+                    continue
+                res.append(st)
+            return res
+        fn.body = drop(fn.body) or [ast.Pass()]
+    if count:
+        ast.fix_missing_locations(tree)
+    return count
+
+
 def _walk_own(fn):
     """nodes of fn's own scope (nested function bodies excluded)"""
     stack = list(ast.iter_child_nodes(fn))
@@ -870,6 +947,7 @@ def _walk_own(fn):
 
 def inline_module(tree, modname):
     n_alias = _unalias_lookups(tree)
+    n_gen = _generator_loops(tree)
     n_acc = _list_acc_to_str(tree)
     jt = _JoinToLoop()
     tree = jt.run(tree)
@@ -883,4 +961,6 @@ def inline_module(tree, modname):
         inl.report.append("%d list accumulators joined with the empty string read as string accumulators" % n_acc)
     if n_alias:
         inl.report.append("%d hoisted attribute look-ups read in place" % n_alias)
+    if n_gen:
+        inl.report.append("%d loops over a generator expression read as filtered loops" % n_gen)
     return tree, inl.report
